@@ -999,6 +999,21 @@ pub fn run(tier: Tier) -> i32 {
             work.push((p.clone(), 2));
             work.push((p.clone(), 3));
         }
+        // both halves of one exchange (removals and modifications run as separate tasks), and
+        // two exchanges in opposite directions at once: node0 holds key 1 live, node1 has
+        // deleted it later and written key 2; nothing was replicated directly
+        let lossy_p3 = ExecCfg {
+            prelude: vec![
+                OpSpec { node: 0, kind: Kind::Put(1), level: Consistency::None },
+                OpSpec { node: 1, kind: Kind::Del(1), level: Consistency::None },
+                OpSpec { node: 1, kind: Kind::Put(2), level: Consistency::None },
+            ],
+            ..with_prelude(&lossy)
+        };
+        let repair = |node: usize, from: usize| OpSpec { node, kind: Kind::RepairFrom(from), level: Consistency::None };
+        for second in [repair(1, 0), OpSpec { node: 1, kind: Kind::Del(2), level: Consistency::None }, OpSpec { node: 0, kind: Kind::Put(1), level: Consistency::None }] {
+            work.push((vec![repair(0, 1), second], 4));
+        }
         if only.is_some() {
             work.clear();
         }
@@ -1010,6 +1025,7 @@ pub fn run(tier: Tier) -> i32 {
                 0 => &ccfg,
                 1 => &lossy,
                 2 => &ccfg_p,
+                4 => &lossy_p3,
                 _ => &lossy_p,
             };
             let mut st = Stats::default();
@@ -1047,7 +1063,7 @@ pub fn run(tier: Tier) -> i32 {
         }
         blocks_json.push(
             J::obj()
-                .set("block", "concurrency: two client tasks (two operations, or a repair cycle racing with an operation), await-point interleavings (E2), then the end phase once with healthy replication and once with every direct message and batch lost")
+                .set("block", "concurrency: two client tasks (two operations; a repair cycle racing with an operation; two repair cycles in opposite directions; one exchange whose removal and modification halves both have work), await-point interleavings (E2, fine-grained for repairs), then the end phase once with healthy replication and once with every direct message and batch lost")
                 .set("histories", work.len())
                 .set("deviation_bound", format!("{conc_bound} preemptions / ordering deviations"))
                 .set("executions", summary.executions - before),
@@ -1079,7 +1095,7 @@ pub fn run(tier: Tier) -> i32 {
     report.guard_nonzero("guard_executions_with_deviations", with_dev);
     report.guard(outcomes >= 4, "fewer than 4 distinct converged results");
     report.assume("all operations of a history are issued within one forgiveness period (the injected wall clock advances 4 ms per event)");
-    report.assume("repair RPCs themselves are not faulted: an exchange that fails has not 'completed' in the sense of the property");
+    report.assume("the requests of a repair exchange are faulted only in the dedicated blocks (mid-history exchanges); the closing exchanges always complete");
     report.assume("membership is fixed and known to every node (joins/leaves are C16's subject)");
     report.finish()
 }
